@@ -131,19 +131,28 @@ def async_stream(ctx, tg, wd, tfile):
             if os.path.exists(p):
                 os.remove(p)
         delay = ctx.rng.random() * dur * 1.1
-        pr = subprocess.Popen(["timeout", "120", tg["inovesa"]] + dc.cmdline(cfg, out), stdout=subprocess.PIPE,
+        # the property speaks about signals after start-up: the binary is started directly (a python watchdog
+        # replaces the shell `timeout`, whose own start-up would otherwise race with the signal), the first log
+        # line is awaited (it is printed after the handler is installed), then SIGINT goes to the process itself
+        import threading
+        pr = subprocess.Popen([tg["inovesa"]] + dc.cmdline(cfg, out), stdout=subprocess.PIPE,
                               stderr=subprocess.STDOUT, text=True, env=env)
+        dog = threading.Timer(150, pr.kill)
+        dog.start()
+        first = pr.stdout.readline()
         time.sleep(delay)
-        # signal the inovesa process itself (child of timeout): timeout forwards SIGINT
         pr.send_signal(signal.SIGINT)
         try:
             log, _ = pr.communicate(timeout=150)
+            log = first + log
         except subprocess.TimeoutExpired:
             pr.kill()
             log = "(hung)"
+        dog.cancel()
         tail = dc.log_tail(log)
         case = dict(cmd=" ".join(dc.cmdline(cfg, "async.h5")), kill_INT_after_s=round(delay, 3))
         ctx.count("async")
+        ctx.count("async:" + (tail if tail in ("Aborted.", "Finished.") else "other"))
         h = dc.h5read(tg, out) if os.path.exists(out) else None
         started = "Starting the simulation." in log
         if pr.returncode != 0 or tail not in ("Aborted.", "Finished."):
